@@ -5,7 +5,9 @@
       over the generated tables [funnel_steps]/[funnel_handlers]/[fault_string_from_exception];
     - [spyne/protocol/_outbase.py] / [soap11.py] [fault_to_http_response_code], interpreted over
       the generated chain;
-    - [spyne/server/wsgi.py] [handle_rpc] / [handle_error] (status + body, or an escaping exception);
+    - [spyne/server/wsgi.py] [handle_rpc] / [handle_error] (status + body, or an escaping exception),
+      interpreted over the generated tables [wsgi_first_item_handlers] / [wsgi_serialise_handlers] /
+      [wsgi_join_in_try] / [wsgi_ok_status] / [wsgi_ok_default_after_serialise] / [wsgi_error_status];
     - the fault serialisers: [XmlDocument.fault_to_parent] + [_fault_to_parent_impl] +
       [util/etreeconv.py] [root_dict_to_etree]/[dict_to_etree] (XmlDocument, SOAP 1.1),
       [Soap12.fault_to_parent]/[_fault_to_parent_impl]/[gen_fault_codes]/[generate_subcode],
@@ -45,8 +47,9 @@ Record fault := {
 
 Inductive raise := RFault (f : fault) | RExn (e : pyexn).
 
-(** what the user method returns: a plain value, or a generator that is consumed lazily by the
-    serialiser and may raise after its first item *)
+(** what the user method returns: a plain value, or a generator (an [Iterable] result; for HttpRpc,
+    which serialises primitives only, a [ByteArray] whose value is a generator of chunks) that
+    yields [v] and may raise after that first item *)
 Inductive retval :=
 | RPlain (v : text)
 | RGen (v : text) (later : option raise)
@@ -73,7 +76,9 @@ Inductive wire :=
 | WXml (x : xml)
 | WDoc (d : doc)
 | WText (s : text)       (* HttpRpc: text/plain *)
-| WReturn (v : text).    (* the protocol's rendering of the return value [v] (not modelled further) *)
+| WReturn (v : text)     (* the protocol's rendering of the return value [v] (not modelled further) *)
+| WPartial (v : text).   (* the rendering of [v], after which the response iterable raises: the
+                            status line and [v] are already on the wire *)
 
 (* ------------------------------------------------------------------ the funnel *)
 
@@ -95,6 +100,8 @@ Definition handler_matches (h : hcls) (r : raise) : bool :=
   | HFault, RFault _ => true
   | HFault, RExn _ => false
   | HException, _ => true
+  | HStopIteration, _ => false   (* user code cannot raise it out of a generator (PEP 479: it
+                                    arrives as RuntimeError) and a Fault is not one *)
   end.
 
 (** the value of [ctx.out_error] after the handler ran *)
@@ -106,6 +113,8 @@ Definition apply_handler (h : hcls) (a : herr) (r : raise) : option fault :=
   | _, HECaught, RExn _ => None
   | _, HENew code, RFault f => Some (server_fault code (exn_of_fault f))
   | _, HENew code, RExn e => Some (server_fault code e)
+  | _, HECaughtOrNew _, RFault f => Some f
+  | _, HECaughtOrNew code, RExn e => Some (server_fault code e)
   | _, HENothing, _ => None
   end.
 
@@ -298,10 +307,18 @@ Definition enc_fault (p : prot) (f : fault) : out wire :=
 
 (* ------------------------------------------------------------------ server and WSGI *)
 
-Inductive sres := SOk (w : wire) | SRaise (r : raise) | SCrash (e : exn).
+(** what [get_out_string] leaves behind: a document, an exception raised while the generator result
+    was consumed by the serialiser, a lazily serialised body that will yield [v] and then raise, or
+    a failure of the serialiser itself *)
+Inductive sres := SOk (w : wire) | SLazy (v : text) (r : raise) | SRaise (r : raise) | SCrash (e : exn).
 
 Definition lift_enc (o : out wire) : sres :=
   match o with Ok w => SOk w | Crash e => SCrash e | VFault => SCrash OtherExn end.
+
+(** which output protocols hand the chunks of a generator-valued result through without consuming
+    them ([HttpRpc._handle_rpc_nonempty] -> [to_bytes_iterable]); every other protocol builds its
+    whole document inside [serialize] *)
+Definition lazy_out (p : prot) : bool := match p with PHttpRpc => true | _ => false end.
 
 (** [out_protocol.serialize] + [create_out_string]: the error branch comes first and never looks
     at [ctx.out_object] *)
@@ -312,7 +329,7 @@ Definition serialize (p : prot) (c : fctx) : sres :=
     match c_obj c with
     | Some (RPlain v) => SOk (WReturn v)
     | Some (RGen v None) => SOk (WReturn v)
-    | Some (RGen v (Some r)) => SRaise r
+    | Some (RGen v (Some r)) => if lazy_out p then SLazy v r else SRaise r
     | Some (RGen0 r) => SRaise r
     | None => SCrash AssertionError
     end
@@ -321,30 +338,47 @@ Definition serialize (p : prot) (c : fctx) : sres :=
 (** [WsgiApplication.handle_error]: status (unless already set) then body; an exception raised
     by the serialiser escapes the WSGI callable before [start_response] *)
 Definition handle_error (p : prot) (resp_code : option Z) (f : fault) : out (Z * wire) :=
-  let status := match resp_code with Some s => s | None => http_code p f end in
+  let status := match resp_code with
+                | Some s => s
+                | None => match wsgi_error_status with ESFromFault => http_code p f | ESConst s => s end
+                end in
   match enc_fault p f with
   | Ok w => Ok (status, w)
   | Crash e => Crash e
   | VFault => Crash OtherExn
   end.
 
-(** [WsgiApplication.handle_rpc] from [get_out_object] on (repaired: a Fault raised while the
-    response is being serialised is reported as it is, and the 200 default is only applied once
-    serialisation succeeded) *)
-Definition handle_rpc (p : prot) (u : ucode) : out (Z * wire) :=
+(** an except clause list of [handle_rpc] applied to what was raised: the clause sets
+    [p_ctx.out_error] and returns [handle_error]; no matching clause: the exception escapes *)
+Definition wsgi_catch (p : prot) (hs : list (hcls * herr)) (resp_code : option Z) (r : raise) : out (Z * wire) :=
+  do e <- catch hs r;
+  match e with
+  | Some f => handle_error p resp_code f
+  | None => Crash OtherExn
+  end.
+
+(** [WsgiApplication.handle_rpc] from [get_out_object] on, for an application served with
+    [chunked] (the default is True) *)
+Definition handle_rpc (p : prot) (chunked : bool) (u : ucode) : out (Z * wire) :=
   do c <- process_request u;
   match c_err c with
   | Some f => handle_error p None f
   | None =>
     match c_obj c with
-    | Some (RGen0 _) => Crash OtherExn     (* first_obj = next(g): outside every try *)
-    | _ =>
-    match serialize p c with
-    | SOk w => Ok (200, w)
-    | SRaise (RFault f) => handle_error p None f
-    | SRaise (RExn e) => handle_error p None (server_fault (t "Server") e)
-    | SCrash e => handle_error p None (server_fault (t "Server") {| px_type := []; px_text := [] |})
-    end
+    | None => Crash AssertionError           (* assert p_ctx.out_object is not None *)
+    | Some (RGen0 r) => wsgi_catch p wsgi_first_item_handlers None r      (* first_obj = next(g) *)
+    | Some _ =>
+      (* the value of transport.resp_code the serialisation handlers find *)
+      let rc := if wsgi_ok_default_after_serialise then None else Some wsgi_ok_status in
+      match serialize p c with
+      | SOk w => Ok (wsgi_ok_status, w)
+      | SRaise r => wsgi_catch p wsgi_serialise_handlers rc r
+      | SCrash e => wsgi_catch p wsgi_serialise_handlers rc (RExn {| px_type := []; px_text := [] |})
+      | SLazy v r =>
+        if chunked then Ok (wsgi_ok_status, WPartial v)       (* found out while the body is sent *)
+        else if wsgi_join_in_try then wsgi_catch p wsgi_serialise_handlers rc r
+        else Crash OtherExn                                   (* joined outside every try *)
+      end
     end
   end.
 
@@ -354,6 +388,7 @@ Definition server_out (p : prot) (u : ucode) : out wire :=
   do c <- process_request u;
   match serialize p c with
   | SOk w => Ok w
+  | SLazy _ _ => Crash OtherExn        (* raised when the caller consumes ctx.out_string *)
   | SRaise _ => Crash OtherExn
   | SCrash e => Crash e
   end.
@@ -547,10 +582,21 @@ Definition first_raise (u : ucode) : option raise :=
     | inr v =>
       match u_ret u with
       | Some r => Some r
-      | None => match v with RGen _ (Some r) => Some r | _ => None end
+      | None => match v with RGen _ (Some r) => Some r | RGen0 r => Some r | _ => None end
       end
     end
   end.
+
+(** the first raise comes from a generator result after its first item ... *)
+Definition late_raise (u : ucode) : bool :=
+  match u_call u, u_body u, u_ret u with
+  | None, inr (RGen _ (Some _)), None => true
+  | _, _, _ => false
+  end.
+
+(** ... under a protocol that streams the chunks, served chunked: the one configuration in which
+    the fault is found out after [start_response] *)
+Definition streamed (p : prot) (chunked : bool) (u : ucode) : bool := chunked && lazy_out p && late_raise u.
 
 (** the documented HTTP status of a fault *)
 Definition is_soap (p : prot) : bool := match p with PSoap11 | PSoap12 => true | _ => false end.
